@@ -44,6 +44,59 @@ Proof.
   destruct H as [y [Hy E]]. apply Z.eqb_eq in E. subst. exact Hy.
 Qed.
 
+Lemma mem_in : forall x l, mem x l = true <-> In x l.
+Proof.
+  intros. unfold mem. rewrite existsb_exists. split.
+  - intros [y [Hy E]]. apply Z.eqb_eq in E. subst. exact Hy.
+  - intros H. exists x. split; auto. apply Z.eqb_refl.
+Qed.
+
+Lemma common_iff : forall t x, common t x = true <-> forall c, In c (voters t) -> In x c.
+Proof.
+  intros. unfold common. rewrite forallb_forall. split; intros H c Hc; apply mem_in; auto.
+Qed.
+
+Lemma has_agreement_iff : forall t, has_agreement t = true <-> agreement t <> [].
+Proof.
+  intros t. unfold has_agreement, agreement. destruct (voters t) as [|c cs] eqn:E.
+  - split; [discriminate | congruence].
+  - rewrite existsb_exists. split.
+    + intros [x [Hx Hc]] Hn. rewrite common_iff, E in Hc.
+      assert (In x (fold_left inter cs c)).
+      { apply in_fold_inter. split; auto. intros c' Hc'. apply Hc. right; auto. }
+      rewrite Hn in H. destruct H.
+    + intros Hn. destruct (fold_left inter cs c) as [|x xs] eqn:Ef; [congruence|].
+      assert (Hx : In x (fold_left inter cs c)) by (rewrite Ef; left; auto).
+      apply in_fold_inter in Hx. destruct Hx as [H1 H2]. exists x. split; auto.
+      apply common_iff. rewrite E. intros c' [<-|Hc']; auto.
+Qed.
+
+(* the law accepts the model's own answer, for every layout: law and theorem
+   speak about the same predicate *)
+Lemma law_victims_model : forall ts, law_victims ts (victims_fixed ts) = true.
+Proof.
+  intros ts. rewrite tier_victims_spec. unfold law_victims, victims_spec.
+  induction ts as [|t r IH]; [reflexivity|]. simpl.
+  destruct (has_agreement t) eqn:Eh.
+  - pose proof (proj1 (has_agreement_iff t) Eh) as Hn.
+    destruct (agreement t) as [|y ys] eqn:Ea; [congruence|]. rewrite <- Ea.
+    assert (Hnil : is_nil (agreement t) = false) by (rewrite Ea; reflexivity).
+    rewrite Hnil. simpl.
+    assert (Hall : forall x, In x (agreement t) <-> In x (hd [] (voters t)) /\ common t x = true).
+    { intros x. unfold agreement. destruct (voters t) as [|c cs] eqn:E.
+      - simpl. split; [intros []|intros [[] _]].
+      - simpl. rewrite in_fold_inter, common_iff, E. split.
+        + intros [H1 H2]. split; auto. intros c' [<-|Hc']; auto.
+        + intros [H1 H2]. split; auto. intros c' Hc'. apply H2. right; auto. }
+    apply andb_true_intro. split.
+    + apply forallb_forall. intros x Hx. apply Hall in Hx. tauto.
+    + apply forallb_forall. intros x Hx. apply filter_In in Hx. apply mem_in. apply Hall. exact Hx.
+  - assert (Ea : agreement t = []).
+    { destruct (agreement t) eqn:E; auto.
+      assert (has_agreement t = true) by (apply has_agreement_iff; congruence). congruence. }
+    rewrite Ea. exact IH.
+Qed.
+
 (* ---------------- gates ---------------- *)
 Definition law_all (ts : layout bool) (got : bool) : bool :=
   Bool.eqb got (forallb idb (actives ts)).
